@@ -388,10 +388,10 @@ pub fn project(env: &Env) -> Map<String, Value> {
     m.insert("markets".into(), Value::Object(markets));
     let mut mints = Map::new();
     for (n, mi) in env.mints.iter() {
-        mints.insert(
-            n.clone(),
-            json!({"dec": mi.decimals, "prog": env.names.name(&mi.program), "fee_bps": mi.fee_bps, "max_fee": big_u(mi.max_fee as u128)}),
-        );
+        // (the fee in force at the current epoch, read from the mint account: a scheduled change takes over at its epoch)
+        let (bps, maxf) = env.fee_in_force(&mi.key).unwrap_or((mi.fee_bps, mi.max_fee));
+        let (bps, maxf) = if mi.fee_bps == 0 && bps == 0 { (0, mi.max_fee) } else { (bps, maxf) };
+        mints.insert(n.clone(), json!({"dec": mi.decimals, "prog": env.names.name(&mi.program), "fee_bps": bps, "max_fee": big_u(maxf as u128)}));
     }
     m.insert("mints".into(), Value::Object(mints));
     m
